@@ -4,7 +4,7 @@
      positions of lev root (D - d): a touched set closed by construction; its NoCollision clause is a boolean check (coll_free:
      equal hash => equal position value) - touch_levels. *)
 From Coq Require Import NArith ZArith List Bool Lia.
-Require Import Board Move GameOver Eval EvalSpec Search NegamaxSpec SearchTable1 SearchTable4 DfpnExample.
+Require Import Board Move GameOver Eval EvalSpec Search NegamaxSpec SearchTable1 SearchTable4.
 Require Import Generated.Consts.
 Import ListNotations.
 Open Scope Z_scope.
@@ -85,6 +85,36 @@ Lemma lb_notL n p : lb n p = false -> ~ L basis n p.
 Proof. intros H HL. apply (proj2 (wl_reflect n p)) in HL. congruence. Qed.
 End Dec.
 
+(* decidable equality of position values *)
+Fixpoint nlist_eqb (a b : list N) : bool :=
+  match a, b with
+  | [], [] => true
+  | x :: r, y :: s => (x =? y)%N && nlist_eqb r s
+  | _, _ => false
+  end.
+Lemma nlist_eqb_eq a : forall b, nlist_eqb a b = true -> a = b.
+Proof.
+  induction a as [|x r IH]; intros [|y s] H; cbn [nlist_eqb] in H; try discriminate; [reflexivity|].
+  apply andb_true_iff in H. destruct H as [H1 H2]. apply N.eqb_eq in H1. apply IH in H2. congruence.
+Qed.
+Definition pos_eqb (a b : position) : bool :=
+  (White a =? White b)%N && (Black a =? Black b)%N && (Standing a =? Standing b)%N && (Caps a =? Caps b)%N &&
+  (move a =? move b)%Z && (hash a =? hash b)%N && (size a =? size b)%N && Bool.eqb (black_wins_ties a) (black_wins_ties b) &&
+  (whiteStones a =? whiteStones b)%N && (whiteCaps a =? whiteCaps b)%N && (blackStones a =? blackStones b)%N && (blackCaps a =? blackCaps b)%N &&
+  nlist_eqb (Height a) (Height b) && nlist_eqb (Stacks a) (Stacks b).
+Lemma pos_eqb_eq a b : pos_eqb a b = true -> a = b.
+Proof.
+  unfold pos_eqb. intros H.
+  repeat (apply andb_true_iff in H; destruct H as [H ?]).
+  repeat match goal with
+  | H : (_ =? _)%N = true |- _ => apply N.eqb_eq in H
+  | H : (_ =? _)%Z = true |- _ => apply Z.eqb_eq in H
+  | H : Bool.eqb _ _ = true |- _ => apply eqb_prop in H
+  | H : nlist_eqb _ _ = true |- _ => apply nlist_eqb_eq in H
+  end.
+  destruct a, b; cbn in *; subst; reflexivity.
+Qed.
+
 (* ---- a touched set by construction: the tree below a root ---- *)
 Definition expand (l : list position) : list position :=
   flat_map (fun p => if is_over p then [] else children gen_basis p) l.
@@ -97,7 +127,9 @@ Fixpoint coll_free_l (hl : list (N * position)) : bool :=
   | [] => true
   | a :: r => forallb (fun b => negb (fst a =? fst b)%N || pos_eqb (snd a) (snd b)) r && coll_free_l r
   end.
-Definition coll_free (l : list position) : bool := coll_free_l (map (fun p => (hash_of p, p)) l).      (* every hash computed once *)
+(* generic in the hash function, so that no proof step ever unfolds Position.Hash *)
+Definition coll_free_g (h : position -> N) (l : list position) : bool := coll_free_l (map (fun p => (h p, p)) l).   (* every hash computed once *)
+Definition coll_free (l : list position) : bool := coll_free_g phash l.
 
 Lemma coll_free_l_ok hl : coll_free_l hl = true -> forall a b, In a hl -> In b hl -> fst a = fst b -> snd a = snd b.
 Proof.
@@ -112,6 +144,11 @@ Proof.
   - apply PAIR; assumption.
   - symmetry. apply PAIR; [assumption|symmetry; assumption].
   - apply IH; assumption.
+Qed.
+Lemma coll_free_g_ok (h : position -> N) l : coll_free_g h l = true -> forall p q, In p l -> In q l -> h p = h q -> p = q.
+Proof.
+  intros CF p q Hp Hq E.
+  exact (coll_free_l_ok _ CF (h p, p) (h q, q) (in_map (fun p => (h p, p)) _ p Hp) (in_map (fun p => (h p, p)) _ q Hq) E).
 Qed.
 
 Lemma lev_root root j : In root (lev root j).
@@ -132,10 +169,7 @@ Proof.
   - intros d p (LE & H). split; [lia|]. replace (D - d)%nat with (S (D - S d)) by lia. apply lev_mono. exact H.
   - intros d p q (LE & H) EO Hq. split; [lia|]. replace (D - d)%nat with (S (D - S d)) by lia. apply (lev_step root _ p q H EO Hq).
   - intros p q (_ & Hp) (_ & Hq) E. replace (D - 0)%nat with D in * by lia.
-    unfold phash in E.
-    exact (eq_ind p (fun q => cls_eq gen_basis p q) (cls_eq_refl p) q
-             (coll_free_l_ok _ CF (hash_of p, p) (hash_of q, q) (in_map (fun p => (hash_of p, p)) _ p Hp)
-                (in_map (fun p => (hash_of p, p)) _ q Hq) E)).
+    pose proof (coll_free_g_ok phash (lev root D) CF p q Hp Hq E) as EQ. subst q. apply cls_eq_refl.
 Qed.
 Lemma Ulev_root root D d : (d <= D)%nat -> Ulev root D d root.
 Proof. intros H. split; [exact H|apply lev_root]. Qed.
